@@ -15,8 +15,8 @@ def run(run):
     quick = run.tier == 'quick'
     run.rule = ('cases = GraphSM behaviours containing SaveLoad(fmt, withModel) in {json, yml} x {model, no model}; '
                 'non-trivial = SaveLoad preceded by at least two graph actions; distinct by action sequence')
-    run.assumptions = [                       'graphs with asset-less nodes are not round-tripped (their names derive from ids)']
-    gsm.mc_slice(run, 'C10', 6, depth=7 if quick else 8, must=('SaveLoad',))
+    run.assumptions = ['graphs with asset-less nodes are not round-tripped (their names derive from ids)']
+    gsm.mc_slice(run, 'C10', 6, depth=7, must=('SaveLoad',))
     gsm.bfs_slice(run, 'C10', 4 if quick else 5, keep=KEEP)
     gsm.bfs_slice(run, 'C10R', 5 if quick else 6, keep=KEEP)      # undo / remove_node, then save and load
     # two attackers sharing a name (once an open finding, repaired by 30f4fbb): exercised on every run
@@ -24,3 +24,5 @@ def run(run):
     gsm.simulate(run, 'C10', 9, 3000 if quick else 40000, keep=KEEP, free=False, timeout=300 if quick else 1800)
     gsm.simulate(run, 'ALL', 12, 2000 if quick else 40000, keep=KEEP, lang='LDef', timeout=300 if quick else 1800)
     gsm.simulate(run, 'ALL', 12, 2000 if quick else 40000, keep=KEEP, timeout=300 if quick else 1800)
+    if not quick:
+        gsm.mc_slice(run, 'C10', 6, depth=8, must=('SaveLoad',))          # larger design check last
